@@ -31,7 +31,7 @@ void *__real_realloc(void *p, size_t n);
 void __real_free(void *p);
 
 #define C19_SITES_MAX (1u << 17)
-#define C19_STACK 12
+#define C19_STACK 24
 #define C19_FAULTLOG 4
 #define C19_TAB (1u << 16)          /* live ledger capacity (open addressing) */
 
